@@ -223,8 +223,9 @@ def elem_of_chain(ch):
 
 
 class Scope:
-    def __init__(self, prog, fn, env=None, elem=None, parent=None, via=None, elem_arg=2):
+    def __init__(self, prog, fn, env=None, elem=None, parent=None, via=None, elem_arg=2, argmap=None):
         self.prog = prog
+        self.argmap = argmap or {}     # parameter local -> caller's argument node (inlined helper functions)
         self.fn = fn
         self.body = fn.body
         self.eb = ExprBuilder(self.body)
@@ -236,11 +237,12 @@ class Scope:
 
     def _rw(self, node):
         node = norm_for_elem(node)
-        if self.parent is None and not self.env and self.elem is None:
+        if self.parent is None and not self.env and self.elem is None and not self.argmap:
             return node
         env = self.env
         elem = self.elem
         ea = self.elem_arg
+        am = self.argmap
 
         def rw(n):
             k = n[0]
@@ -249,6 +251,8 @@ class Scope:
             if k == "arg":
                 if n[1] == ea and elem is not None:
                     return elem
+                if n[1] in am:
+                    return am[n[1]]
                 return n
             if k == "proj":
                 from .exprs import mkproj
